@@ -660,4 +660,539 @@ theorem alphaSuffix_nodup (all : List Str) (hp : alphaProviso all = true) :
 theorem alphaSuffix_nodup_top (all : List Str) (hp : alphaProviso all = true) : (alphaSuffix all all []).Nodup :=
   alphaSuffix_nodup all hp all [] (fun _ => Nat.le_refl _) (fun x _ => by simp [countOf])
 
+/-! ### the evaluator: missing fields -/
+
+theorem latexParts_not_missing : ∀ (fuel level : Nat) (cur v : Str) (f : Str),
+    latexParts fuel level cur v ≠ .error (.missing f) := by
+  intro fuel
+  induction fuel with
+  | zero => intro level cur v f; simp [latexParts]
+  | succ n ih =>
+    intro level cur v f
+    cases v with
+    | nil => simp only [latexParts]; split <;> simp
+    | cons c r =>
+      simp only [latexParts]
+      split
+      · split
+        · rename_i e he; intro h; simp only [Except.error.injEq] at h; subst h; exact ih _ _ _ _ he
+        · split
+          · rename_i e he; intro h; simp only [Except.error.injEq] at h; subst h; exact ih _ _ _ _ he
+          · simp
+      · split
+        · split <;> simp
+        · exact ih _ _ _ _
+
+theorem fromLatex_not_missing (v f : Str) : fromLatex v ≠ .error (.missing f) := by
+  unfold fromLatex
+  split
+  · rename_i e he; intro h; simp only [Except.error.injEq] at h; subst h; exact latexParts_not_missing _ _ _ _ _ he
+  · simp
+
+/-- `optional` never fails with a missing field -/
+theorem eval_optional_not_missing (fuel : Nat) (ctx : Ctx) (cs : List T) (f : Str) :
+    eval fuel ctx (.optional cs) ≠ .error (.missing f) := by
+  cases fuel with
+  | zero => simp [eval]
+  | succ n =>
+    simp only [eval]
+    split
+    · simp
+    · rename_i e hne _; intro h; simp only [Except.error.injEq] at h; subst h; exact hne f rfl
+    · simp
+
+/-- the text a `name_part` node builds from the values of its children -/
+def namePartText (before : RT) (tie abbr : Bool) (children : List RT) : RT :=
+  let children := if abbr then children.map abbreviate else children
+  let parts := togetherParts true children
+  if !truthy parts then mk .text []
+  else if tie then mk .text [before, parts, tieOrSpace parts nbsp space none]
+  else mk .text [before, parts]
+
+theorem eval_namePart (n : Nat) (ctx : Ctx) (before : RT) (tie abbr : Bool) (cs : List T) :
+    eval (n + 1) ctx (.namePart before tie abbr cs) =
+      match evalList n ctx cs with
+      | .error e => .error e
+      | .ok children => .ok (namePartText before tie abbr children) := by
+  simp only [eval]
+  cases evalList n ctx cs with
+  | error e => rfl
+  | ok children =>
+    simp only [namePartText]
+    cases abbr <;> cases tie <;> simp only [if_true, if_false, Bool.false_eq_true] <;> split <;> rfl
+
+theorem eval_href (n : Nat) (ctx : Ctx) (url : T) (ext : Bool) (cs : List T) :
+    eval (n + 1) ctx (.href url ext cs) =
+      match evalList n ctx cs with
+      | .error e => .error e
+      | .ok parts =>
+        match eval n ctx url with
+        | .error e => .error e
+        | .ok u => .ok (mk (.href (toStr u) ext) parts) := by
+  simp only [eval]
+  cases evalList n ctx cs with
+  | error e => rfl
+  | ok parts => cases eval n ctx url <;> rfl
+
+/-- the text a `sentence` node builds from the values of its children -/
+def sentenceText (cf cap ap : Bool) (sep : RT) (parts : List RT) : RT :=
+  let text := joinParts sep sep sep parts
+  let text := if cf then RT.capfirst text else text
+  let text := if cap then RT.capitalize text else text
+  if ap then addPeriodT text else text
+
+theorem eval_sentence (n : Nat) (ctx : Ctx) (cf cap ap : Bool) (sep : RT) (cs : List T) :
+    eval (n + 1) ctx (.sentence cf cap ap sep cs) =
+      match evalList n ctx cs with
+      | .error e => .error e
+      | .ok parts => .ok (sentenceText cf cap ap sep parts) := by
+  simp only [eval]
+  cases evalList n ctx cs <;> rfl
+
+/-- the reported name belongs to a required node whose lookup fails -/
+def MissOK (ctx : Ctx) (req : List Lookup) (f : Str) : Prop :=
+  ∃ lk, lk.name = f ∧ lookupFails ctx lk = true ∧
+    (lk ∈ req ∨ lk ∈ ctx.personTemplates.flatMap fun p => requiredNodesL p.2)
+
+theorem MissOK.mono {ctx : Ctx} {req req' : List Lookup} {f : Str} (h : MissOK ctx req f)
+    (hs : ∀ lk ∈ req, lk ∈ req') : MissOK ctx req' f := by
+  obtain ⟨lk, h1, h2, h3⟩ := h
+  exact ⟨lk, h1, h2, h3.imp (hs lk) id⟩
+
+theorem eval_missing_sound (ctx : Ctx) : ∀ fuel,
+    (∀ t f, eval fuel ctx t = .error (.missing f) → MissOK ctx (requiredNodes t) f) ∧
+    (∀ ts f, evalList fuel ctx ts = .error (.missing f) → MissOK ctx (requiredNodesL ts) f) ∧
+    (∀ ts f, evalFirst fuel ctx ts = .error (.missing f) → MissOK ctx (requiredNodesL ts) f) := by
+  intro fuel
+  induction fuel with
+  | zero => refine ⟨?_, ?_, ?_⟩ <;> intro t f h <;> simp [eval, evalList, evalFirst] at h
+  | succ n ih =>
+    obtain ⟨ih1, ih2, ih3⟩ := ih
+    refine ⟨?_, ?_, ?_⟩
+    · intro t f h
+      cases t with
+      | lit r => simp [eval] at h
+      | raw s => simp [eval] at h
+      | join s s2 ls cs =>
+        simp only [eval] at h
+        split at h
+        · rename_i e he; simp only [Except.error.injEq] at h; subst h
+          simpa [requiredNodes] using ih2 _ _ he
+        · cases h
+      | together lt cs =>
+        simp only [eval] at h
+        split at h
+        · rename_i e he; simp only [Except.error.injEq] at h; subst h
+          simpa [requiredNodes] using ih2 _ _ he
+        · cases h
+      | sentence cf cap ap sep cs =>
+        simp only [eval] at h
+        split at h
+        · rename_i e he; simp only [Except.error.injEq] at h; subst h
+          simpa [requiredNodes] using ih2 _ _ he
+        · cases h
+      | field name fn raw =>
+        simp only [eval] at h
+        split at h
+        · rename_i hf
+          simp only [Except.error.injEq, TErr.missing.injEq] at h; subst h
+          exact ⟨.field name, rfl, by simp [lookupFails, hf], Or.inl (by simp [requiredNodes])⟩
+        · split at h
+          · cases h
+          · split at h
+            · rename_i e he; simp only [Except.error.injEq] at h; subst h
+              exact absurd he (fromLatex_not_missing _ _)
+            · cases h
+      | names role s s2 ls =>
+        simp only [eval] at h
+        split at h
+        · rename_i hf
+          simp only [Except.error.injEq, TErr.missing.injEq] at h; subst h
+          exact ⟨.names role, rfl, by simp [lookupFails, hf], Or.inl (by simp [requiredNodes])⟩
+        · rename_i r ts hf
+          split at h
+          · rename_i e he; simp only [Except.error.injEq] at h; subst h
+            obtain ⟨lk, h1, h2, h3⟩ := ih2 _ _ he
+            refine ⟨lk, h1, h2, Or.inr ?_⟩
+            rcases h3 with h3 | h3
+            · rw [List.mem_flatMap]
+              exact ⟨(r, ts), List.mem_of_find?_eq_some hf, h3⟩
+            · exact h3
+          · cases h
+      | optional cs => exact absurd h (eval_optional_not_missing _ _ _ _)
+      | firstOf cs =>
+        simp only [eval] at h
+        simpa [requiredNodes] using ih3 _ _ h
+      | tag name cs =>
+        simp only [eval] at h
+        split at h
+        · rename_i e he; simp only [Except.error.injEq] at h; subst h
+          simpa [requiredNodes] using ih2 _ _ he
+        · cases h
+      | href url ext cs =>
+        simp only [eval] at h
+        split at h
+        · rename_i e he; simp only [Except.error.injEq] at h; subst h
+          exact (ih2 _ _ he).mono (by simp [requiredNodes]; intro lk hlk; exact Or.inl hlk)
+        · split at h
+          · rename_i e he; simp only [Except.error.injEq] at h; subst h
+            exact (ih1 _ _ he).mono (by simp [requiredNodes]; intro lk hlk; exact Or.inr hlk)
+          · cases h
+      | namePart before tie abbr cs =>
+        rw [eval_namePart] at h
+        split at h
+        · rename_i e he; simp only [Except.error.injEq] at h; subst h
+          simpa [requiredNodes] using ih2 _ _ he
+        · cases h
+    · intro ts f h
+      cases ts with
+      | nil => simp [evalList] at h
+      | cons t ts =>
+        simp only [evalList] at h
+        split at h
+        · rename_i e he; simp only [Except.error.injEq] at h; subst h
+          exact (ih1 _ _ he).mono (by simp [requiredNodesL]; intro lk hlk; exact Or.inl hlk)
+        · split at h
+          · rename_i e he; simp only [Except.error.injEq] at h; subst h
+            exact (ih2 _ _ he).mono (by simp [requiredNodesL]; intro lk hlk; exact Or.inr hlk)
+          · cases h
+    · intro ts f h
+      cases ts with
+      | nil => simp [evalFirst] at h
+      | cons t ts =>
+        simp only [evalFirst] at h
+        split at h
+        · rename_i e he; simp only [Except.error.injEq] at h; subst h
+          exact (ih1 _ _ he).mono (by simp [requiredNodesL]; intro lk hlk; exact Or.inl hlk)
+        · split at h
+          · cases h
+          · exact (ih3 _ _ h).mono (by simp [requiredNodesL]; intro lk hlk; exact Or.inr hlk)
+
+/-- a `FieldIsMissing` from the pipeline comes from the template of one entry, all entries before
+it (in formatting order) having been formatted -/
+theorem formatEntries_missing (db : BibData) (items : Str → Option Item) :
+    ∀ (l : List (Str × PEntry)) (f key : Str), formatEntries db items l = .error (.missingField f key) →
+      ∃ pre label e post it, l = pre ++ (label, e) :: post ∧ e.key = key ∧ items e.key = some it ∧
+        eval evalFuel { entry := e.toEntry, db := some db, personTemplates := it.personTemplates } it.template
+          = .error (.missing f) ∧
+        ∀ p ∈ pre, ∃ it r, items p.2.key = some it ∧
+          eval evalFuel { entry := p.2.toEntry, db := some db, personTemplates := it.personTemplates } it.template = .ok r := by
+  intro l
+  induction l with
+  | nil => intro f key h; simp [formatEntries] at h
+  | cons p l ih =>
+    intro f key h
+    obtain ⟨label, e⟩ := p
+    simp only [formatEntries] at h
+    split at h
+    · cases h
+    · rename_i it hit
+      split at h
+      · rename_i f' hf'
+        simp only [Except.error.injEq, BibErr.missingField.injEq] at h
+        obtain ⟨rfl, rfl⟩ := h
+        exact ⟨[], label, e, l, it, rfl, rfl, hit, hf', by simp⟩
+      · cases h
+      · cases h
+      · rename_i text htext
+        split at h
+        · rename_i err herr
+          simp only [Except.error.injEq] at h; subst h
+          obtain ⟨pre, label', e', post, it', hl, hk, hi, he, hpre⟩ := ih f key herr
+          refine ⟨(label, e) :: pre, label', e', post, it', by simp [hl], hk, hi, he, ?_⟩
+          intro q hq
+          rcases List.mem_cons.1 hq with rfl | hq
+          · exact ⟨it, text, hit, htext⟩
+          · exact hpre q hq
+        · cases h
+
+/-! ### fuel: more fuel never changes an answer other than "out of fuel" -/
+
+theorem eval_mono_step (ctx : Ctx) : ∀ n,
+    (∀ t, eval n ctx t ≠ .error .outOfFuel → eval (n + 1) ctx t = eval n ctx t) ∧
+    (∀ ts, evalList n ctx ts ≠ .error .outOfFuel → evalList (n + 1) ctx ts = evalList n ctx ts) ∧
+    (∀ ts, evalFirst n ctx ts ≠ .error .outOfFuel → evalFirst (n + 1) ctx ts = evalFirst n ctx ts) := by
+  intro n
+  induction n with
+  | zero => refine ⟨?_, ?_, ?_⟩ <;> intro t h <;> exact absurd (by simp [eval, evalList, evalFirst]) h
+  | succ n ih =>
+    obtain ⟨ih1, ih2, ih3⟩ := ih
+    refine ⟨?_, ?_, ?_⟩
+    · intro t hne
+      cases t with
+      | lit r => simp only [eval]
+      | raw s => simp only [eval]
+      | join s s2 ls cs =>
+        have hsub : evalList n ctx cs ≠ .error .outOfFuel := by intro h; apply hne; simp only [eval, h]
+        simp only [eval, ih2 cs hsub]
+      | together lt cs =>
+        have hsub : evalList n ctx cs ≠ .error .outOfFuel := by intro h; apply hne; simp only [eval, h]
+        simp only [eval, ih2 cs hsub]
+      | sentence cf cap ap sep cs =>
+        have hsub : evalList n ctx cs ≠ .error .outOfFuel := by intro h; apply hne; simp only [eval_sentence, h]
+        simp only [eval_sentence, ih2 cs hsub]
+      | field name fn raw => simp only [eval]
+      | names role s s2 ls =>
+        cases hf : ctx.personTemplates.find? (fun p => lower p.1 = lower role) with
+        | none => simp only [eval, hf]
+        | some p =>
+          obtain ⟨r, ts⟩ := p
+          have hsub : evalList n ctx ts ≠ .error .outOfFuel := by intro h; apply hne; simp only [eval, hf, h]
+          simp only [eval, hf, ih2 ts hsub]
+      | optional cs =>
+        have hsub : evalList n ctx cs ≠ .error .outOfFuel := by intro h; apply hne; simp only [eval, h]
+        simp only [eval, ih2 cs hsub]
+      | firstOf cs =>
+        have hsub : evalFirst n ctx cs ≠ .error .outOfFuel := by intro h; apply hne; simp only [eval, h]
+        simp only [eval, ih3 cs hsub]
+      | tag name cs =>
+        have hsub : evalList n ctx cs ≠ .error .outOfFuel := by intro h; apply hne; simp only [eval, h]
+        simp only [eval, ih2 cs hsub]
+      | href url ext cs =>
+        have hsub : evalList n ctx cs ≠ .error .outOfFuel := by intro h; apply hne; simp only [eval_href, h]
+        cases hcs : evalList n ctx cs with
+        | error e => simp only [eval_href, ih2 cs hsub, hcs]
+        | ok parts =>
+          have hsub2 : eval n ctx url ≠ .error .outOfFuel := by intro h; apply hne; simp only [eval_href, hcs, h]
+          simp only [eval_href, ih2 cs hsub, hcs, ih1 url hsub2]
+      | namePart before tie abbr cs =>
+        have hsub : evalList n ctx cs ≠ .error .outOfFuel := by intro h; apply hne; simp only [eval_namePart, h]
+        simp only [eval_namePart, ih2 cs hsub]
+    · intro ts hne
+      cases ts with
+      | nil => simp only [evalList]
+      | cons t ts =>
+        have hsub : eval n ctx t ≠ .error .outOfFuel := by intro h; apply hne; simp only [evalList, h]
+        cases ht : eval n ctx t with
+        | error e => simp only [evalList, ih1 t hsub, ht]
+        | ok r =>
+          have hsub2 : evalList n ctx ts ≠ .error .outOfFuel := by intro h; apply hne; simp only [evalList, ht, h]
+          simp only [evalList, ih1 t hsub, ht, ih2 ts hsub2]
+    · intro ts hne
+      cases ts with
+      | nil => simp only [evalFirst]
+      | cons t ts =>
+        have hsub : eval n ctx t ≠ .error .outOfFuel := by intro h; apply hne; simp only [evalFirst, h]
+        cases ht : eval n ctx t with
+        | error e => simp only [evalFirst, ih1 t hsub, ht]
+        | ok r =>
+          by_cases htr : truthy r = true
+          · simp only [evalFirst, ih1 t hsub, ht, htr, if_true]
+          · have hsub2 : evalFirst n ctx ts ≠ .error .outOfFuel := by
+              intro h; apply hne; simp only [evalFirst, ht, htr, h]; simp
+            simp only [evalFirst, ih1 t hsub, ht, htr, ih3 ts hsub2]
+
+theorem eval_mono {ctx : Ctx} {n : Nat} {t : T} {x : Except TErr RT} (h : eval n ctx t = x)
+    (hx : x ≠ .error .outOfFuel) : ∀ m, n ≤ m → eval m ctx t = x := by
+  intro m hm
+  obtain ⟨k, rfl⟩ := Nat.exists_eq_add_of_le hm
+  clear hm
+  induction k with
+  | zero => exact h
+  | succ k ih => rw [← Nat.add_assoc, (eval_mono_step ctx (n + k)).1 t (by rw [ih]; exact hx), ih]
+
+theorem evalList_mono {ctx : Ctx} {n : Nat} {ts : List T} {x : Except TErr (List RT)} (h : evalList n ctx ts = x)
+    (hx : x ≠ .error .outOfFuel) : ∀ m, n ≤ m → evalList m ctx ts = x := by
+  intro m hm
+  obtain ⟨k, rfl⟩ := Nat.exists_eq_add_of_le hm
+  clear hm
+  induction k with
+  | zero => exact h
+  | succ k ih => rw [← Nat.add_assoc, (eval_mono_step ctx (n + k)).2.1 ts (by rw [ih]; exact hx), ih]
+
+theorem evalFirst_mono {ctx : Ctx} {n : Nat} {ts : List T} {x : Except TErr RT} (h : evalFirst n ctx ts = x)
+    (hx : x ≠ .error .outOfFuel) : ∀ m, n ≤ m → evalFirst m ctx ts = x := by
+  intro m hm
+  obtain ⟨k, rfl⟩ := Nat.exists_eq_add_of_le hm
+  clear hm
+  induction k with
+  | zero => exact h
+  | succ k ih => rw [← Nat.add_assoc, (eval_mono_step ctx (n + k)).2.2 ts (by rw [ih]; exact hx), ih]
+
+/-- evaluation is deterministic in the fuel: two runs that do not run out of fuel agree -/
+theorem eval_fuel_agree {ctx : Ctx} {n m : Nat} {t : T} (hn : eval n ctx t ≠ .error .outOfFuel)
+    (hm : eval m ctx t ≠ .error .outOfFuel) : eval n ctx t = eval m ctx t := by
+  rcases Nat.le_total n m with h | h
+  · exact (eval_mono rfl hn m h).symm
+  · exact eval_mono rfl hm n h
+
+/-! ### exact characterisation of "missing field" -/
+
+/-- the evaluation of `x` with this fuel ends in the error `e` -/
+def failsWith (fuel : Nat) (ctx : Ctx) (x : Tgt) (e : TErr) : Prop :=
+  match x with
+  | .node t => eval fuel ctx t = .error e
+  | .all ts => evalList fuel ctx ts = .error e
+  | .first ts => evalFirst fuel ctx ts = .error e
+
+theorem failsWith_mono {ctx : Ctx} {n : Nat} {x : Tgt} {f : Str} (h : failsWith n ctx x (.missing f)) :
+    ∀ m, n ≤ m → failsWith m ctx x (.missing f) := by
+  intro m hm
+  cases x with
+  | node t => exact eval_mono h (by simp) m hm
+  | all ts => exact evalList_mono h (by simp) m hm
+  | first ts => exact evalFirst_mono h (by simp) m hm
+
+theorem missing_of_failsWith (ctx : Ctx) : ∀ fuel,
+    (∀ t f, eval fuel ctx t = .error (.missing f) → Missing ctx (.node t) f) ∧
+    (∀ ts f, evalList fuel ctx ts = .error (.missing f) → Missing ctx (.all ts) f) ∧
+    (∀ ts f, evalFirst fuel ctx ts = .error (.missing f) → Missing ctx (.first ts) f) := by
+  intro fuel
+  induction fuel with
+  | zero => refine ⟨?_, ?_, ?_⟩ <;> intro t f h <;> simp [eval, evalList, evalFirst] at h
+  | succ n ih =>
+    obtain ⟨ih1, ih2, ih3⟩ := ih
+    refine ⟨?_, ?_, ?_⟩
+    · intro t f h
+      cases t with
+      | lit r => simp [eval] at h
+      | raw s => simp [eval] at h
+      | join s s2 ls cs =>
+        simp only [eval] at h
+        split at h
+        · rename_i e he; simp only [Except.error.injEq] at h; subst h; exact .join (ih2 _ _ he)
+        · cases h
+      | together lt cs =>
+        simp only [eval] at h
+        split at h
+        · rename_i e he; simp only [Except.error.injEq] at h; subst h; exact .together (ih2 _ _ he)
+        · cases h
+      | sentence cf cap ap sep cs =>
+        rw [eval_sentence] at h
+        split at h
+        · rename_i e he; simp only [Except.error.injEq] at h; subst h; exact .sentence (ih2 _ _ he)
+        · cases h
+      | field name fn raw =>
+        simp only [eval] at h
+        split at h
+        · rename_i hf
+          simp only [Except.error.injEq, TErr.missing.injEq] at h; subst h
+          exact .field hf
+        · split at h
+          · cases h
+          · split at h
+            · rename_i e he; simp only [Except.error.injEq] at h; subst h
+              exact absurd he (fromLatex_not_missing _ _)
+            · cases h
+      | names role s s2 ls =>
+        simp only [eval] at h
+        split at h
+        · rename_i hf
+          simp only [Except.error.injEq, TErr.missing.injEq] at h; subst h
+          exact .names hf
+        · rename_i r ts hf
+          split at h
+          · rename_i e he; simp only [Except.error.injEq] at h; subst h
+            exact .namesIn hf (ih2 _ _ he)
+          · cases h
+      | optional cs => exact absurd h (eval_optional_not_missing _ _ _ _)
+      | firstOf cs =>
+        simp only [eval] at h
+        exact .firstOf (ih3 _ _ h)
+      | tag name cs =>
+        simp only [eval] at h
+        split at h
+        · rename_i e he; simp only [Except.error.injEq] at h; subst h; exact .tag (ih2 _ _ he)
+        · cases h
+      | href url ext cs =>
+        simp only [eval] at h
+        split at h
+        · rename_i e he; simp only [Except.error.injEq] at h; subst h; exact .hrefKids (ih2 _ _ he)
+        · rename_i parts hparts
+          split at h
+          · rename_i e he; simp only [Except.error.injEq] at h; subst h
+            exact .hrefUrl ⟨n, parts, hparts⟩ (ih1 _ _ he)
+          · cases h
+      | namePart before tie abbr cs =>
+        rw [eval_namePart] at h
+        split at h
+        · rename_i e he; simp only [Except.error.injEq] at h; subst h; exact .namePart (ih2 _ _ he)
+        · cases h
+    · intro ts f h
+      cases ts with
+      | nil => simp [evalList] at h
+      | cons t ts =>
+        simp only [evalList] at h
+        split at h
+        · rename_i e he; simp only [Except.error.injEq] at h; subst h; exact .allHead (ih1 _ _ he)
+        · rename_i r hr
+          split at h
+          · rename_i e he; simp only [Except.error.injEq] at h; subst h
+            exact .allTail ⟨n, r, hr⟩ (ih2 _ _ he)
+          · cases h
+    · intro ts f h
+      cases ts with
+      | nil => simp [evalFirst] at h
+      | cons t ts =>
+        simp only [evalFirst] at h
+        split at h
+        · rename_i e he; simp only [Except.error.injEq] at h; subst h; exact .firstHead (ih1 _ _ he)
+        · rename_i r hr
+          split at h
+          · cases h
+          · rename_i htr
+            exact .firstTail ⟨n, r, hr, by simpa using htr⟩ (ih3 _ _ h)
+
+theorem failsWith_of_missing {ctx : Ctx} {x : Tgt} {f : Str} (h : Missing ctx x f) :
+    ∃ fuel, failsWith fuel ctx x (.missing f) := by
+  induction h with
+  | field hf => exact ⟨1, by simp [failsWith, eval, hf]⟩
+  | names hf => exact ⟨1, by simp [failsWith, eval, hf]⟩
+  | @namesIn r s s2 ls p f hf _ ih =>
+    obtain ⟨fuel, hfl⟩ := ih
+    obtain ⟨r', ts⟩ := p
+    exact ⟨fuel + 1, by simp only [failsWith] at hfl ⊢; simp only [eval, hf, hfl]⟩
+  | join _ ih =>
+    obtain ⟨fuel, hfl⟩ := ih
+    exact ⟨fuel + 1, by simp only [failsWith] at hfl ⊢; simp only [eval, hfl]⟩
+  | together _ ih =>
+    obtain ⟨fuel, hfl⟩ := ih
+    exact ⟨fuel + 1, by simp only [failsWith] at hfl ⊢; simp only [eval, hfl]⟩
+  | sentence _ ih =>
+    obtain ⟨fuel, hfl⟩ := ih
+    exact ⟨fuel + 1, by simp only [failsWith] at hfl ⊢; simp only [eval_sentence, hfl]⟩
+  | tag _ ih =>
+    obtain ⟨fuel, hfl⟩ := ih
+    exact ⟨fuel + 1, by simp only [failsWith] at hfl ⊢; simp only [eval, hfl]⟩
+  | namePart _ ih =>
+    obtain ⟨fuel, hfl⟩ := ih
+    exact ⟨fuel + 1, by simp only [failsWith] at hfl ⊢; simp only [eval_namePart, hfl]⟩
+  | hrefKids _ ih =>
+    obtain ⟨fuel, hfl⟩ := ih
+    exact ⟨fuel + 1, by simp only [failsWith] at hfl ⊢; simp only [eval, hfl]⟩
+  | hrefUrl hok _ ih =>
+    obtain ⟨fuel1, parts, hparts⟩ := hok
+    obtain ⟨fuel2, hfl⟩ := ih
+    refine ⟨max fuel1 fuel2 + 1, ?_⟩
+    have h1 := evalList_mono hparts (by simp) (max fuel1 fuel2) (Nat.le_max_left _ _)
+    have h2 := failsWith_mono hfl (max fuel1 fuel2) (Nat.le_max_right _ _)
+    simp only [failsWith] at h2 ⊢
+    simp only [eval, h1, h2]
+  | firstOf _ ih =>
+    obtain ⟨fuel, hfl⟩ := ih
+    exact ⟨fuel + 1, by simp only [failsWith] at hfl ⊢; simp only [eval, hfl]⟩
+  | allHead _ ih =>
+    obtain ⟨fuel, hfl⟩ := ih
+    exact ⟨fuel + 1, by simp only [failsWith] at hfl ⊢; simp only [evalList, hfl]⟩
+  | allTail hok _ ih =>
+    obtain ⟨fuel1, r, hr⟩ := hok
+    obtain ⟨fuel2, hfl⟩ := ih
+    refine ⟨max fuel1 fuel2 + 1, ?_⟩
+    have h1 := eval_mono hr (by simp) (max fuel1 fuel2) (Nat.le_max_left _ _)
+    have h2 := failsWith_mono hfl (max fuel1 fuel2) (Nat.le_max_right _ _)
+    simp only [failsWith] at h2 ⊢
+    simp only [evalList, h1, h2]
+  | firstHead _ ih =>
+    obtain ⟨fuel, hfl⟩ := ih
+    exact ⟨fuel + 1, by simp only [failsWith] at hfl ⊢; simp only [evalFirst, hfl]⟩
+  | firstTail hok _ ih =>
+    obtain ⟨fuel1, r, hr, htr⟩ := hok
+    obtain ⟨fuel2, hfl⟩ := ih
+    refine ⟨max fuel1 fuel2 + 1, ?_⟩
+    have h1 := eval_mono hr (by simp) (max fuel1 fuel2) (Nat.le_max_left _ _)
+    have h2 := failsWith_mono hfl (max fuel1 fuel2) (Nat.le_max_right _ _)
+    simp only [failsWith] at h2 ⊢
+    simp only [evalFirst, h1, htr, h2]
+    simp
+
 end Pybtex.Tmpl
